@@ -80,6 +80,10 @@ def cost_catalog():
         "Sc_4096": scal(4096),
         "P_K3_Dg": prod(K3, diag(4096)),
         "P_Sc_K3": prod(scal(4096), K3),
+        # mixed dtypes (the product's dtype is the promoted one, no factor need have it)
+        "P_cSc_K3": ({"k": "Product", "a": [scal(4096)[0], K3[0]]}, (lambda: (2.0 + 1.0j) * K3[1]())),
+        "P_Dg32_K3": ({"k": "Product", "a": [diag(4096)[0], K3[0]]},
+                      (lambda: ops.Product(ops.Diagonal((1.0 + np.arange(4096) / 4096).astype(np.float32)), K3[1]()))),
         "S_K3_Dg": summ(K3, diag(4096)),
         "S_K3_I": summ(K3, ident(4096)),
     }
